@@ -161,8 +161,10 @@ Definition kids (g : gram) (ko : string) : list string :=
 (* the scalar classes a leaf of this input type can carry (pseudo-row "#kinds" of the grammar) *)
 Definition KINDS : string := "#kinds".
 Definition gkinds (g : gram) : list string := kids g KINDS.
+(* ... and a mapping key of this input type (pseudo-row "#keykinds"; these scalar classes carry the prefix "key:") *)
+Definition gkeykinds (g : gram) : list string := kids g "#keykinds".
 Definition class_rows (g : gram) : list (string * list string) :=
-  filter (fun pk : string * list string => negb (String.eqb (fst pk) KINDS)) (snd g).
+  filter (fun pk : string * list string => negb (starts_with "#" (fst pk))) (snd g).
 Definition alt (g : gram) (cls : string) : list string :=
   dedup_s (flat_map (fun pk : string * list string => if mem cls (snd pk) then snd pk else []) (class_rows g)
            ++ (if mem cls (roots g) then roots g else [])).
@@ -230,8 +232,10 @@ Fixpoint run_method (fuel : nat) (f : finst) (owner name cls ko : string) : list
 Definition emit_all (owner name cls : string) : list (string * bool) :=
   match assoc3 (owner, name, cls) (t_emit T) with Some l => l | None => [] end.
 (* restricted to the scalar classes this input type can carry *)
+(* (a key/value-pair printer also has a row for the KEY position, probed with a key of every scalar class) *)
 Definition emit_kinds (owner name cls : string) : list (string * bool) :=
-  filter (fun kb : string * bool => mem (fst kb) (gkinds it)) (emit_all owner name cls).
+  filter (fun kb : string * bool => mem (fst kb) (gkinds it)) (emit_all owner name cls) ++
+  filter (fun kb : string * bool => mem (fst kb) (gkeykinds it)) (emit_all owner name "#key").
 (* the scalar classes inside the classes of the open findings: null (D19, plistlib has no null) and
    bytes (YAMLStringFormatter.print_StringNode tests `'\n' in s` on a bytes object) *)
 Definition kf_kind (k : string) : bool := String.eqb k "null" || String.eqb k "bytes".
@@ -472,7 +476,7 @@ Definition event_fail (it : gram) (e : event) : efail :=
   | Some (f, m, ow) =>
       let cls := unedited (e_mro e) in
       let calls := run_method it MFUEL f ow m cls cls in
-      let ks := emit_all ow m cls in
+      let ks := if starts_with "key:" (e_kind e) then emit_all ow m "#key" else emit_all ow m cls in
       if sloop (e_base e, cls, cls, true) then FLoop else
       match ks, assoc (e_kind e) ks with
       | _, Some false => if kf_kind (e_kind e) then FEmit else FEmitOther
@@ -498,7 +502,7 @@ Definition completed (c : c13_case) : bool := match c_out c with Completed _ => 
 Definition grammar_ok (c : c13_case) : bool :=
   forallb (fun r => mem r (roots (case_gram c))) (c_roots c) &&
   forallb (fun pk : string * string => mem (snd pk) (kids (case_gram c) (fst pk))) (c_pairs c) &&
-  forallb (fun k => mem k (gkinds (case_gram c))) (c_kinds c).
+  forallb (fun k => mem k (gkinds (case_gram c)) || mem k (gkeykinds (case_gram c))) (c_kinds c).
 
 (* S : the reachable set of the case's configuration (reach of its grammar, root formatter and mode) *)
 Definition corr_C13 (S : list cfg) (c : c13_case) : bool :=
@@ -535,6 +539,24 @@ Definition kf_bytes_diff (c : c13_case) : bool :=
   match c_out c with
   | Raised k msg false => String.eqb k "TypeError" && contains "has no len()" msg && mem "bytes" (c_kinds c) && c_differ c
   | _ => false
+  end.
+
+(* a YAML mapping with a null key: json.build_tree(None, force_leaf_node=True) raises ValueError, which YAML's
+   build_tree_handling_errors (YAMLError only) does not report: the loader dies before anything is rendered *)
+Definition kf_yaml_null_key (c : c13_case) : bool :=
+  match c_out c, c_roots c with
+  | Raised k msg false, [] => String.eqb (c_it c) "yaml" && String.eqb k "ValueError" &&
+                              contains "was expected to be an int or string" msg
+  | _, _ => false
+  end.
+
+(* a pickled dict with two or more tuple keys: tuples are built as ListNode, DictNode.from_dict sorts the key/value
+   pairs and ListNode has no `<`: TypeError in the loader, before anything is rendered *)
+Definition kf_tuple_keys (c : c13_case) : bool :=
+  match c_out c, c_roots c with
+  | Raised k msg false, [] => String.eqb (c_it c) "pickle" && String.eqb k "TypeError" &&
+                              contains "not supported between instances of 'ListNode'" msg
+  | _, _ => false
   end.
 
 End Model.
